@@ -6,7 +6,10 @@ use std::panic;
 mod proto;
 use proto::*;
 
+mod bio;
+mod chan_bundle;
 mod chan_hex;
+mod chan_now;
 mod chan_time;
 
 fn mode_of_build() -> &'static str {
@@ -39,6 +42,15 @@ fn run_line(line: &str) -> String {
         "TSTR" => chan_time::tstr(args),
         "TSFMT" => chan_time::tsfmt(args),
         "NOW" => chan_time::now(args),
+        "SCHED" => chan_now::sched(args),
+        "DEC" => chan_bundle::dec(args),
+        "ENC" => chan_bundle::enc(args),
+        "CRCV" => chan_bundle::crcv(args),
+        "RT" => chan_bundle::rt(args),
+        "SPEC" => chan_bundle::spec(args),
+        "DECRT" => chan_bundle::decrt(args),
+        "CRC16" => chan_bundle::crc16(args),
+        "CRC32" => chan_bundle::crc32(args),
         _ => "BADCASE".to_string(),
     });
     match r {
@@ -48,6 +60,10 @@ fn run_line(line: &str) -> String {
 }
 
 fn main() {
+    if std::env::args().nth(1).as_deref() == Some("--one-sched") {
+        chan_now::sched_child_main();
+        return;
+    }
     panic::set_hook(Box::new(|_| {}));
     let stdin = io::stdin();
     let stdout = io::stdout();
